@@ -5,8 +5,13 @@ suffix, files = sys.argv[1], sys.argv[2:]
 root = os.path.join(os.path.dirname(os.path.dirname(os.path.abspath(__file__))), "lean", "Fosite")
 pat = re.compile(r"^(?:@\[[^\]]*\]\s*)?(?:private\s+|protected\s+)?(?:theorem|def|lemma|abbrev|structure|inductive|instance)\s+([A-Za-z_][A-Za-z0-9_.'!?]*)", re.M)
 others = set()
+def rel(x):
+    x = os.path.abspath(x)
+    i = x.rfind(os.sep + "Fosite" + os.sep)
+    return x[i:] if i >= 0 else x
+mine_rel = set(rel(x) for x in files)
 for f in glob.glob(os.path.join(root, "**", "*.lean"), recursive=True):
-    if os.path.abspath(f) in [os.path.abspath(x) for x in files]:
+    if rel(f) in mine_rel:   # the same module, wherever the copy lives
         continue
     others |= set(pat.findall(open(f).read()))
 mine = set()
